@@ -3645,6 +3645,15 @@ impl Zeroconf {
         listener: Sender<HostnameResolutionEvent>,
         timeout: Option<u64>,
     ) {
+        // A retransmission whose search was stopped or timed out meanwhile must not run.
+        if repeating
+            && !self
+                .hostname_resolvers
+                .contains_key(&hostname.to_lowercase())
+        {
+            return;
+        }
+
         let addr_list: Vec<_> = self.my_intfs.iter().collect();
         if let Err(e) = listener.send(HostnameResolutionEvent::SearchStarted(format!(
             "{} on addrs {:?}",
